@@ -1,4 +1,5 @@
 import Pamqp.Spec.Defs
+import Pamqp.Proofs.Taxonomy
 /-!
 # C09 — every decode failure is an UnmarshalingException
 -/
@@ -8,12 +9,14 @@ open Pamqp
 /-- the content decoders raise only the classes the `except` clauses of frame.py name -/
 theorem C09_inner_errors (ty : WireTy) (data : Bytes) (off : Nat) (e : PyErr)
     (h : Decode.byType data ty off = .error e) : Frame.caught e = true := by
-  sorry
+  exact (Proofs.byType_err h).caught
 
 /-- for every catalogue and every byte string, decoding returns a frame or raises the library's
 own exception: a case analysis over the model's complete exception type -/
 theorem C09_only_unmarshaling (cat : Cat) (bs : Bytes) :
     (∃ r, Frame.unmarshal cat bs = .ok r) ∨ Frame.unmarshal cat bs = .error .unmarshaling := by
-  sorry
+  cases h : Frame.unmarshal cat bs with
+  | ok r => exact .inl ⟨r, rfl⟩
+  | error e => exact .inr (by rw [Proofs.unmarshal_err h])
 
 end Pamqp.Props
